@@ -288,7 +288,6 @@ Proof.
   assert (E2 : msum 0 k (fun r => w r * msum 0 k (fun c => M r c * x c)) = 0).
   { rewrite (msum_ext 0 k _ (fun r => msum 0 k (fun c => w r * M r c * x c))).
     - rewrite msum_exchange. apply msum_zero. intros c Hc.
-      rewrite (msum_ext 0 k _ (fun r => (w r * M r c) * x c)) by (intros; ring).
       rewrite msum_scal_r, Hw by lia. ring.
     - intros r _. rewrite <- msum_scal_l. apply msum_ext. intros c _. ring. }
   lra.
